@@ -33,12 +33,12 @@ for d in sorted(glob.glob(os.path.join(V, 'seeded', 'C*_*'))):
         verdict = 'MISSED'
     rows.append('| %s | %s | %s | %s |' % (sid, what[:170], needs[:170], verdict))
 out = ['## 9. Seeded changes and which checks catch them', '',
-       'Two hundred and forty changes to eqsig written by sub-agents that saw only the text of one property (never `/verif`), each',
+       'Two hundred and eighty changes to eqsig written by sub-agents that saw only the text of one property (never `/verif`), each',
        'confirmed in a scratch worktree: applies to `/repo` HEAD, the 63 tests pass with it, its demonstration fails with it and passes',
-       'without it (`harness/confirm_seeds.sh`; `seeded/<id>/{patch.diff, demo.py, meta.json}`). Six rounds of two per property: `_1`, `_2`',
+       'without it (`harness/confirm_seeds.sh`; `seeded/<id>/{patch.diff, demo.py, meta.json}`). Seven rounds of two per property: `_1`, `_2`',
        '(first session), `_3`, `_4` ("a mechanism different from the ones already used"), `_5`, `_6` ("a KIND of mechanism not in the list at',
        'all: boundary conditions, index arithmetic, equality branches, option combinations, ordering effects, rounding shortcuts, default',
-       'propagation"), `_7`..`_12` (three rounds given the list of clauses already targeted: "another clause, entry point or mechanism"). Each was run against the quick tier of its property\'s check in a scratch worktree through `EQSIG_REPO`',
+       'propagation"), `_7`..`_14` (four rounds given the list of clauses already targeted: "another clause, entry point or mechanism"). Each was run against the quick tier of its property\'s check in a scratch worktree through `EQSIG_REPO`',
        '(`harness/sweep_seeds.sh`, results in `seeded/RESULTS.tsv`); the table gives the first reporting site of the final sweep. After',
        'round 2, 15 of 80 were first missed; after round 3, 10 of the 40 new ones; after round 4, 9 of the 40 new ones (C04_8, C06_8, C07_8, C08_7,',
        'C08_8, C09_7, C11_7, C12_7, C17_7), and ten more were caught by a broken source tie only, with no failing input. All are caught now (C07_8 as a broken',
@@ -56,8 +56,10 @@ out = ['## 9. Seeded changes and which checks catch them', '',
        'broken source tie only; generators were then added for all 13 (narrow/unsigned integer records, true spectra at xi = 0, a second `gen_response_spectrum`',
        'with a larger `min_dt_ratio`, a strong sample only in the trailing part-second, upper fraction 1.0 on float records, positional `im, se`, a first sample',
        '2^55.. times the later oscillation, integer-dtype input of the cycle counter, the omitted `keep_adj_zeros`, `interp=True`, records of more than 50 000 /',
-       '65 536 samples through sparse Coq-side checkers, integer travel times). Miss rate per round: 19 %, 25 %, 22 %, 10 %, 10 %. Ten of the 240 rows still',
-       'name `translator` or `proof:` as the first reporting site. What was added for the earlier rounds (see 7.3):',
+       '65 536 samples through sparse Coq-side checkers, integer travel times). Round 7: 2 of 40 missed (C02_14: single-precision state above 2^23',
+       'entries; C08_14: `remove_rolling_average(mtype=acceleration)` without invalidation; generators added), 14 first caught by a broken source tie only',
+       '(left as they are: the remaining time went into the final runs). Miss rate per round: 19 %, 25 %, 22 %, 10 %, 10 %, 5 %. Rows naming `translator`',
+       'or `proof:` as the first reporting site ended `no-failing-input-found` or name the broken obligation first. What was added for the earlier rounds (see 7.3):',
        'object read → change → read-again histories (C03, C07, C08, C09, C10), purity/repeatability wrappers (`core.guarded_pure`) and',
        'non-float64 storage (C01, C02, C06, C08, C09, C11, C13, C17, C18, C19), long-record × many-period batches and object-level refinement',
        '(C02), non-integer refinement factors (C03), weak-motion amplitudes (C08, C09, C19), list/tuple containers (C08), record lengths k·1000',
